@@ -11,11 +11,18 @@ ops
      file = `e` empty · `g` malformed · `a;…`/`d;…` valid allowed/denied with `m=<msg>` `w=<w1>~<w2>` `p=<patch>`
      others = `ok…` / `bad…`: the run's metric / object patch operation files can / cannot be applied
 * `reqout <uid> <outcome>`                    → `ok`   for the request with that uid the hook does this instead
-* `ov start <uid> path=<p>`                   → `started` (a hook run was prepared and its process runs) | `answered`
+* `ov hand <uid> path=<p>`                    → `handed` (the request went through HandleAdmissionEvent: its task is
+     built, the hook run has not begun) | `answered` (no hook: the request is answered at once)
+* `ov prep <uid> path=<p>`                    → `prepared` (Hook.Run wrote the run's files — the binding context file among
+     them —, the hook process has not read its binding context yet) | `answered`
+* `ov start <uid> path=<p>`                   → `started` (a hook run was prepared and its process runs, started with
+     this request) | `handed-another-request` (its process found another request in its binding context) | `answered`
 * `ov write <uid>` · `ov exit <uid>`          → `ok`   the overlapping run writes its response file · ends
      (`ov` lines script the interleaving of overlapping requests; the `req` line of such a uid follows later)
 * `req path=<p> body=<ok|garbage|norequest> uid=<u>`  → the answer and who ran (model)
 * `oracle req path=… body=… uid=… ans=<answer…>`      → the property on the observed exchange
+* `oracle handed path=… uid=… ghook=<id> gbinding=<name> guid=<uid>` → the hand-over clause on one observed hook
+     process: the process started for the request `uid` to `path` logged that hook / binding / request uid
 -/
 namespace ShellOp.Drv.C14
 open ShellOp ShellOp.Util ShellOp.Admission
@@ -37,6 +44,11 @@ structure St where
   /-- overlapping runs: uid, run number, hook -/
   runs : List (String × Nat × Nat) := []
   fs : FileSt := .init
+  /-- run number → link (hook × binding) number, and the binding contexts of the runs -/
+  links : List (Nat × Nat) := []
+  cs : CtxSt := .init
+  /-- runs whose context file has been prepared -/
+  prepared : List Nat := []
 
 def parseFile (s : String) : Option FileContent :=
   match s.splitOn ";" with
@@ -99,6 +111,36 @@ def effectiveRun (st : St) (uid : String) : Nat → Binding → Outcome :=
     | x :: _ => fun h b => { declaredRun st uid h b with file := seenFile x }
     | [] => declaredRun st uid
   | none => declaredRun st uid
+
+def linkNo (st : St) (h : Nat) (b : Binding) : Nat :=
+  (st.hooks.flatMap (fun hk => hk.bindings.map (fun x => (hk.id, x)))).idxOf (h, b)
+
+def ctxSlot (st : St) : Nat → Nat :=
+  contextSlot perRequestContext
+    (fun r => match st.links.find? (fun e => e.1 == r) with
+      | some e => e.2
+      | none => 0)
+
+def ctxFile (st : St) : Nat → Nat :=
+  responseFileName perRunContextFile
+    (fun r => match st.runs.find? (fun e => e.2.1 == r) with
+      | some e => e.2.2
+      | none => 0)
+
+/-- `HandleEvent` for the request `uid` routed to `(h, b)` (unless it went through it before): a new
+run, its context handed over -/
+def handOver (st : St) (uid : String) (h : Nat) (b : Binding) : St × Nat :=
+  match st.runs.find? (fun e => e.1 == uid) with
+  | some e => (st, e.2.1)
+  | none =>
+    let n := st.runs.length + 1
+    let st := { st with runs := st.runs ++ [(uid, n, h)], links := st.links ++ [(n, linkNo st h b)] }
+    ({ st with cs := ctxStep (ctxSlot st) (ctxFile st) st.cs (.hand n ⟨h, b, uid⟩) }, n)
+
+/-- `prepareBindingContextJsonFile` of run `n` (unless done before) -/
+def prepareCtx (st : St) (n : Nat) : St :=
+  if st.prepared.contains n then st
+  else { st with cs := ctxStep (ctxSlot st) (ctxFile st) st.cs (.prepare n), prepared := n :: st.prepared }
 
 def uidOf : Request → String
   | .ok uid => uid
@@ -197,6 +239,24 @@ def step (st : St) (toks : List String) : St × String :=
     match parseOutcome out with
     | some o => ({ st with reqOuts := st.reqOuts ++ [(dec uid, o)] }, "ok")
     | none => (st, "bad-op")
+  | ["ov", "hand", uid, p] =>
+    match kv? "path" [p] with
+    | none => (st, "bad-op")
+    | some p =>
+      let path := (dec p).toList
+      match route st.hooks (detect path).1 (detect path).2 with
+      | none => (st, "answered")
+      | some (h, b) => ((handOver st (dec uid) h b).1, "handed")
+  | ["ov", "prep", uid, p] =>
+    match kv? "path" [p] with
+    | none => (st, "bad-op")
+    | some p =>
+      let path := (dec p).toList
+      match route st.hooks (detect path).1 (detect path).2 with
+      | none => (st, "answered")
+      | some (h, b) =>
+        let (st, n) := handOver st (dec uid) h b
+        (prepareCtx st n, "prepared")
   | ["ov", "start", uid, p] =>
     match kv? "path" [p] with
     | none => (st, "bad-op")
@@ -204,10 +264,14 @@ def step (st : St) (toks : List String) : St × String :=
       let path := (dec p).toList
       match route st.hooks (detect path).1 (detect path).2 with
       | none => (st, "answered")
-      | some (h, _) =>
-        let n := st.runs.length + 1
-        let st := { st with runs := st.runs ++ [(dec uid, n, h)] }
-        ({ st with fs := fileStep (fileName st) st.fs (.prepare n) }, "started")
+      | some (h, b) =>
+        -- handed over and prepared before (`ov hand`, `ov prep`), or now
+        let (st, n) := handOver st (dec uid) h b
+        let st := prepareCtx st n
+        let st := { st with cs := ctxStep (ctxSlot st) (ctxFile st) st.cs (.start n) }
+        let st := { st with fs := fileStep (fileName st) st.fs (.prepare n) }
+        if (st.cs.given n).getLast? == some (some ⟨h, b, dec uid⟩) then (st, "started")
+        else (st, "handed-another-request")
   | ["ov", "write", uid] =>
     match st.runs.find? (fun e => e.1 == dec uid) with
     | none => (st, "ok")
@@ -233,6 +297,16 @@ def step (st : St) (toks : List String) : St × String :=
       | none => (st, "true")
       | some why => (st, "false " ++ why)
     | _, _ => (st, "bad-op")
+  | "oracle" :: "handed" :: rest =>
+    match kv? "path" rest, kv? "uid" rest, kv? "ghook" rest, kv? "gbinding" rest, kv? "guid" rest with
+    | some p, some uid, some gh, some gb, some gu =>
+      match parseRan st (gh ++ ":" ++ gb) with
+      | some (some (h, b)) =>
+        match checkHanded st.hooks (dec p).toList (dec uid) ⟨h, b, dec gu⟩ with
+        | none => (st, "true")
+        | some why => (st, "false " ++ why)
+      | _ => (st, "bad-op")
+    | _, _, _, _, _ => (st, "bad-op")
   | _ => (st, "bad-op")
 
 def suite : Suite St := { init := {}, step := step }
